@@ -64,7 +64,7 @@ func {{ .RequestEncoder }}(encoder func(*http.Request) goahttp.Encoder) func(*ht
 			{{- end }}
 			req.AddCookie(&http.Cookie{
 				Name: {{ printf "%q" .HTTPName }},
-				Value: v,
+				Value: {{ if (and (isAlias .FieldType) (eq .Type.Name "string")) }}string(v){{ else }}v{{ end }},
 				{{- if .MaxAge }}
 				MaxAge: {{ .MaxAge }},
 				{{- end }}
